@@ -150,6 +150,11 @@ for _pid, _m, _c in (("C01", "MC_C01", "MC_C01_aniso.cfg"), ("C05", "MC_PDF", "M
 for _pid, _c in (("C07", "C07"), ("C08", "C08"), ("C09", "C09"), ("C13", "C13"), ("C13", "C13p"), ("C14", "C14"), ("C14", "C14j"),
                  ("C05", "C05"), ("C06", "C06"), ("C01", "C01"), ("C04", "C01"), ("C04", "C13p"), ("C04", "C07")):
     PROPS[_pid]["quick"].append({"module": "MC_MUT", "cfg": "MC_MUT_%s_quick.cfg" % _c, "nprimes": 10, "require_acts": ["Update"] if _c != "C01" else ["Normalize"]})
+# update() with unsorted / non-consecutive / negative index arrays on batches of 3 and 4 components
+PROPS["C12"]["quick"].append({"module": "MC_PDF", "cfg": "MC_C12U_quick.cfg", "nprimes": 6, "require_acts": ["Update"]})
+# the diagonal density class through every density operation (marginal, linear image, conditioning, entropy, KL against full)
+PROPS["C15"]["quick"].append({"module": "MC_PDF", "cfg": "MC_C15d_quick.cfg", "nprimes": 6, "require_acts": ["LinearSum", "ConditionOn", "Entropy"]})
+PROPS["C15"]["quick"].append({"module": "MC_PDF", "cfg": "MC_C13a_quick.cfg", "nprimes": 6, "require_acts": ["KL"]})
 PROPS["C12"]["quick"].append({"kind": "b2", "traces": 80, "length": 6, "family": "MC", "nprimes": 10})
 PROPS["C02"]["quick"].append({"kind": "b2", "traces": 60, "length": 6, "family": "MC", "nprimes": 10})
 _THOROUGH_SAMPLING = {"MC_C04M_thorough.cfg": 40, "MC_C04C_thorough.cfg": 24, "MC_C12M_thorough.cfg": 60, "MC_C12C_thorough.cfg": 12}
